@@ -876,7 +876,8 @@ Proof.
   - (* CYield *)
     destruct k as [| |c].
     + apply Q, dbstep_refl.
-    + destruct inc; [apply Q, dbstep_refl|]. cbn [fst blocked]. apply (DBH_dbm s); [exact D|apply dbm_same_scopes; reflexivity].
+    + destruct inc; [apply Q, dbstep_refl|]. destruct (ckif_spins _ _ _); [|apply Q, dbstep_refl].
+      cbn [fst blocked]. apply (DBH_dbm s); [exact D|apply dbm_same_scopes; reflexivity].
     + pose proof (DB_exit s c t inc) as H. destruct (scope_exit s c t inc) as [s1 x]. cbn [fst] in H.
       destruct x; now apply Q.
   - (* CSleep *) apply Q. apply (proj1 (rr_ssame _ _ (ss_timer_cancel s _))).
